@@ -37,6 +37,9 @@ package discov
 //@   ensures [exclusive-only-under-the-new-key] c.exclusive ==> len(c.values[val]) == 1 && c.values[val][0] == key
 //@   ensures [shared-appends] !c.exclusive && old(has(c.values, val)) ==> len(c.values[val]) == old(len(c.values[val])) + 1
 //@   ensures [reports-earlier-keys] result1 == (old(has(c.values, val)) && old(len(c.values[val])) > 0)
+// the dirty mark is raised inside the critical section: a reader that is inside its own section cannot clear a
+// mark that belongs to an update it has not seen
+//@   ensures [marked-dirty-under-the-lock] calls(c.dirty.Set, true) == 1 && calls(Set) == 1 && before(on("lock", c.lock), Set) && before(Set, on("unlock", c.lock))
 
 // ---------------- the rest of the subscriber's container (C15) ----------------
 // An added key is recorded and then every change listener runs; a deleted key likewise.
@@ -54,7 +57,7 @@ package discov
 //@   prop C15
 //@   opaque doRemoveKey, Set
 //@   requires c != nil
-//@   ensures [under-lock-and-marked-dirty] calls(c.doRemoveKey, key) == 1 && calls(c.dirty.Set, true) == 1 && before(on("lock", c.lock), doRemoveKey) && before(doRemoveKey, on("unlock", c.lock)) && before(Set, doRemoveKey)
+//@   ensures [under-lock-and-marked-dirty] calls(c.doRemoveKey, key) == 1 && calls(c.dirty.Set, true) == 1 && before(on("lock", c.lock), doRemoveKey) && before(doRemoveKey, on("unlock", c.lock)) && before(Set, doRemoveKey) && before(on("lock", c.lock), Set)
 // notifyChange: every registered listener runs exactly once, in registration order, outside the lock.
 //@ func (*container).notifyChange
 //@   prop C15
